@@ -259,9 +259,7 @@ def _dseq(seq: SymSeq):
     ctx = speclib.CTX
     cls = seq.kind.clsname.split(".")[-1] if hasattr(seq.kind, "clsname") else ""
     if cls == "BitLengthSet":
-        fld = ctx.engine.uf("fld!BitLengthSet!_op", st.V.RefSort, st.V.RefSort)
-        i = z3.FreshConst(z3.IntSort(), "i")
-        return st.dmap_f(z3.Lambda([i], fld(z3.Select(seq.arr, i))))
+        return st.dmap_f(st.opsmap_f(seq.arr))  # a named map instead of a lambda: instantiable by E-matching
     return st.dmap_f(seq.arr)
 
 
